@@ -21,7 +21,9 @@ FRAGMENTS = [
     "{{a|{{a|1}}=x}}", "{{b|{{{1|3}}}=p}}",
 ]
 FLAT_SAFE = ["{{#invoke:ppraw|main|boom}}", "{{#invoke:ppcall|main|boom}}", "{{#invoke:etcall|main|boom}}", "{{a|x}}", "{{b|p|x=q}}", "{{#if:x|y|z}}", "{{#invoke:echo|main|a}}", "{{lc:ABC}}", "{{missing}}",
-             "{{#invoke:bad|main}}", "{{inv|q}}", "{{a|{{#expr:1}}=x}}", "{{b|{{lc:X}}=q}}", "{{a|{{{n|1}}}=x}}"]
+             "{{#invoke:bad|main}}", "{{inv|q}}", "{{a|{{#expr:1}}=x}}", "{{b|{{lc:X}}=q}}", "{{a|{{{n|1}}}=x}}",
+             # cut-off template loops are flat too: each costs a bounded depth and must leave nothing behind
+             "{{loop}}", "{{m1}}", "{{#if:x|{{loop}}}}", "{{a|{{loop}}}}"]
 
 
 def gen_case(rng, heavy=False):
